@@ -187,7 +187,7 @@ fn run<T: Scalar>(c: &Case, xs: &[f64], a: f64, b: f64, mode: Mode, out: &mut Tr
                         g.same(e)
                     }
                 }
-                Mode::Pow2 if !negation => g.same(e) || (g.f() == 0.0 && e.f() == 0.0),
+                Mode::Pow2 if !negation => g.same(e) || (g.f() == 0.0 && e.f() == 0.0) || (g.f().abs() < 1e-280 && e.f().abs() < 1e-280 && (g.f() - e.f()).abs() < 1e-290),
                 _ => {
                     // judged on well-conditioned windows only
                     let off = if negation { 0.0 } else { b.abs() / a.max(1e-300) };
